@@ -386,7 +386,7 @@ func genAdvOp(rt *rapid.T, nm *hx.NodeMachine, cfg genCfg) hx.NOp {
 		sp.Outs[i].Amount = a.String()
 	}
 	last := len(base.Outs) - 1
-	switch kind := rapid.IntRange(0, 11).Draw(rt, "advkind"); kind {
+	switch kind := rapid.IntRange(0, 13).Draw(rt, "advkind"); kind {
 	case 0: // outputs != inputs
 		addTo(&base, rapid.IntRange(0, last).Draw(rt, "which"), int64(rapid.SampledFrom([]int{1, -1, 1000}).Draw(rt, "delta")))
 		return hx.NOp{Op: "tx", Tx: &base, Expect: "unbalanced"}
@@ -455,6 +455,19 @@ func genAdvOp(rt *rapid.T, nm *hx.NodeMachine, cfg genCfg) hx.NOp {
 			}
 		}
 		return hx.NOp{Op: "tx", Tx: &base, Expect: "valid"}
+	case 12, 13: // a family assembled against the same pending state, all verified before any is applied
+		op := hx.NOp{Op: "txbatch", Expect: "verified-together"}
+		k := rapid.IntRange(2, 3).Draw(rt, "batchn")
+		for i := 0; i < k; i++ {
+			c2 := cfg
+			c2.ContractPct = 70
+			c2.Keys = cfg.Keys[:minInt(2, len(cfg.Keys))]
+			spec, ok := genTxSpec(rt, nm, s, c2, h, false)
+			if ok {
+				op.Txs = append(op.Txs, spec)
+			}
+		}
+		return op
 	case 9, 10: // assembled against the chain state ignoring what is pending (conflict families)
 		at := nm.Ptr
 		spec, ok := genTxSpec(rt, nm, nm.States[at], cfg, h, false)
